@@ -4,6 +4,7 @@ package interp
 
 import (
 	"bufio"
+	"os"
 	"fmt"
 	"io"
 	"os/exec"
@@ -30,6 +31,9 @@ type Solver struct {
 	dead    bool
 	log     io.Writer
 	recent  []string
+	lines   chan string // filled by the reader goroutine; closed at EOF
+	budget  time.Duration
+	closed  bool
 }
 
 func NewSolver(kind SolverKind, timeoutMs int) *Solver {
@@ -46,7 +50,25 @@ func NewSolver(kind SolverKind, timeoutMs int) *Solver {
 	if err := cmd.Start(); err != nil {
 		panic(err)
 	}
-	s := &Solver{Kind: kind, cmd: cmd, in: in, out: bufio.NewReaderSize(out, 1<<16), P: NewPrinter()}
+	s := &Solver{Kind: kind, cmd: cmd, in: in, out: bufio.NewReaderSize(out, 1<<16), P: NewPrinter(), lines: make(chan string, 1<<16)}
+	s.budget = time.Duration(timeoutMs)*time.Millisecond + 5*time.Second
+	if dir := os.Getenv("SYMGO_SOLVERLOG"); dir != "" {
+		f, _ := os.CreateTemp(dir, string(kind)+"-*.smt2")
+		s.log = f
+	}
+	go func() {
+		defer close(s.lines)
+		for {
+			l, err := s.out.ReadString('\n')
+			if err != nil {
+				return
+			}
+			l = strings.TrimSpace(l)
+			if l != "" {
+				s.lines <- l
+			}
+		}
+	}()
 	if kind == CVC5 {
 		s.send("(set-logic ALL)")
 		s.send("(set-option :global-declarations true)")
@@ -57,13 +79,14 @@ func NewSolver(kind SolverKind, timeoutMs int) *Solver {
 }
 
 func (s *Solver) Close() {
-	if s == nil || s.dead {
+	if s == nil || s.closed {
 		return
 	}
+	s.closed = true
 	s.dead = true
 	s.in.Close()
 	s.cmd.Process.Kill()
-	s.cmd.Wait()
+	go s.cmd.Wait()
 }
 
 func (s *Solver) send(l string) {
@@ -79,19 +102,32 @@ func (s *Solver) send(l string) {
 	}
 }
 
+// line returns the next non-empty output line. A solver that does not answer within
+// its budget (its own timeout plus a margin) is killed: some tactics ignore z3's soft
+// timeout.
 func (s *Solver) line() (string, bool) {
-	for {
-		l, err := s.out.ReadString('\n')
-		if err != nil {
+	if s.dead {
+		return "", false
+	}
+	t := time.NewTimer(s.budget)
+	defer t.Stop()
+	select {
+	case l, ok := <-s.lines:
+		if !ok {
 			s.dead = true
 			return "", false
 		}
-		l = strings.TrimSpace(l)
-		if l != "" {
-			return l, true
-		}
+		return l, true
+	case <-t.C:
+		s.dead = true
+		s.cmd.Process.Kill()
+		Watchdog++
+		return "", false
 	}
 }
+
+// Watchdog counts solver processes killed for not answering within their budget.
+var Watchdog int
 
 // sexp reads one complete s-expression (possibly spanning lines).
 func (s *Solver) sexp() (string, bool) {
